@@ -351,3 +351,116 @@ def rule_definite_assignment(check, rule, roots, what):
         check.holds(rule, '-', 'every read of a local variable is preceded by a binding on every path (%d functions)' % n, key='defassign|none|%s' % roots[0],
                     nontrivial=False)
     check.floor(rule, 'functions checked for definite assignment', n, 5)
+
+
+# ---------------------------------------------------------------------------
+# constant-index access on a sequence that may be empty
+
+REVIEWED_INDEX = {
+    ('_autoforwards:autoforwards_hint', 'h'): 'the hint protocol: a triple (function, ast, signature) or None, and None is tested first',
+    ('_signatures:_Merger._add_starargs', 'which'): 'two-element list built by every caller (one flag per side)',
+    ('_util:get_ast', 'module.body'): 'the parsed source of a function object: at least its def statement',
+}
+
+
+def _nonempty_dominates(fi, node, base_txt):
+    """is the access dominated by a test that `base_txt` is non-empty?  Recognised: an enclosing `if <base>` / `while <base>` / `<base> and ...`
+    (also negated with the access in the else branch), an earlier `assert <base>` or `if not <base>: raise/return/continue/break` in an
+    enclosing block."""
+    def says_nonempty(test, pol):
+        # test under polarity pol establishes base non-empty?
+        if isinstance(test, ast.UnaryOp) and isinstance(test.op, ast.Not):
+            return says_nonempty(test.operand, not pol)
+        if isinstance(test, ast.BoolOp) and isinstance(test.op, ast.And) and pol:
+            return any(says_nonempty(v, True) for v in test.values)
+        if isinstance(test, ast.BoolOp) and isinstance(test.op, ast.Or) and not pol:
+            return any(says_nonempty(v, False) for v in test.values)
+        txt = norm(test)
+        if pol and txt in (base_txt, 'len(%s)' % base_txt, 'len(%s) > 0' % base_txt, 'len(%s) >= 1' % base_txt):
+            return True
+        if not pol and txt in ('len(%s) == 0' % base_txt, 'not %s' % base_txt):
+            return True
+        return False
+    t = node
+    while getattr(t, '_parent', None) is not None and t is not fi.node:
+        par = t._parent
+        if isinstance(par, (ast.If, ast.While)):
+            if t in par.body and says_nonempty(par.test, True):
+                return True
+            if isinstance(par, ast.If) and t in par.orelse and says_nonempty(par.test, False):
+                return True
+        if isinstance(par, ast.IfExp):
+            if t is par.body and says_nonempty(par.test, True):
+                return True
+            if t is par.orelse and says_nonempty(par.test, False):
+                return True
+        if isinstance(par, ast.BoolOp) and isinstance(par.op, ast.And):
+            i = par.values.index(t) if t in par.values else -1
+            if i > 0 and any(says_nonempty(v, True) for v in par.values[:i]):
+                return True
+        # earlier statements of an enclosing block
+        for field in ('body', 'orelse', 'finalbody'):
+            blk = getattr(par, field, None)
+            if isinstance(blk, list) and t in blk:
+                for s_ in blk[:blk.index(t)]:
+                    if isinstance(s_, ast.Assert) and says_nonempty(s_.test, True):
+                        return True
+                    if isinstance(s_, ast.If) and not s_.orelse and isinstance(s_.body[-1], (ast.Raise, ast.Return, ast.Continue, ast.Break)) \
+                            and says_nonempty(s_.test, False):
+                        return True
+        t = par
+    return False
+
+
+def rule_index_guarded(check, rule, keys, what):
+    """`xs[0]` / `xs.pop(0)` raises IndexError on an empty sequence.  Every constant-index access in the given functions is on a literal
+    display, dominated by a test that the sequence is non-empty, or in the reviewed table (a protocol fixes the length)."""
+    repo = check.repo
+    n = 0
+    for k in keys:
+        fi = repo.func(k, required=False)
+        if fi is None or not isinstance(fi.node, (ast.FunctionDef, ast.AsyncFunctionDef)):
+            continue
+        for x in _own_nodes_(fi.node):
+            base = None
+            if isinstance(x, ast.Call) and isinstance(x.func, ast.Attribute) and x.func.attr == 'pop' and len(x.args) == 1 \
+                    and isinstance(x.args[0], ast.Constant) and isinstance(x.args[0].value, int):
+                base = x.func.value
+            elif isinstance(x, ast.Subscript) and isinstance(x.ctx, ast.Load) and isinstance(x.slice, ast.Constant) and isinstance(x.slice.value, int) \
+                    and not isinstance(x.slice.value, bool):
+                base = x.value
+            if base is None or isinstance(base, (ast.Tuple, ast.List, ast.Constant)):
+                continue
+            # results of calls that return fixed-arity tuples (`str.rpartition`, a package function returning a tuple display) are not sequences
+            # that can be empty; only names and attribute chains are judged
+            if not isinstance(base, (ast.Name, ast.Attribute)):
+                continue
+            if isinstance(base, ast.Name):
+                a_ = fi.node.args
+                plain_params = set(x_.arg for x_ in a_.posonlyargs + a_.args + a_.kwonlyargs)
+                if base.id in plain_params and not any(isinstance(s_, ast.Name) and s_.id == base.id and isinstance(s_.ctx, ast.Store)
+                                                       for s_ in ast.walk(fi.node)):
+                    continue      # a plain parameter: what it holds (a fixed-arity tuple of the protocol, say) is the caller's business
+            n += 1
+            check.analysed(fi)
+            bt = norm(base)
+            key = 'index|%s|%s' % (fi.key, bt)
+            st = '%s %s' % (fi.loc(x), fi.key)
+            if _nonempty_dominates(fi, x, bt):
+                check.holds(rule, st, '%s is taken under a test that %s is not empty' % (norm(x)[:40], bt), key=key)
+            elif (fi.key, bt) in REVIEWED_INDEX:
+                check.holds(rule, st, '%s: reviewed (%s)' % (norm(x)[:40], REVIEWED_INDEX[(fi.key, bt)]), key=key)
+            else:
+                check.violation(rule, st, '%s is taken although nothing on the way establishes that %s is not empty: IndexError %s'
+                                % (norm(x)[:40], bt, what), key=key, witness='the input for which %s is empty' % bt)
+    check.floor(rule, 'constant-index accesses', n, 3)
+
+
+def _own_nodes_(fnode):
+    stack = list(ast.iter_child_nodes(fnode))
+    while stack:
+        n = stack.pop()
+        yield n
+        if isinstance(n, (ast.FunctionDef, ast.AsyncFunctionDef, ast.Lambda, ast.ClassDef)):
+            continue
+        stack.extend(ast.iter_child_nodes(n))
